@@ -116,6 +116,12 @@ CHECKS = {
         note="Cascade evaluator in harness/ref/docref.py. Not generated: !important, percentage widths, multi-class elements, color away from the root, rules selecting the outermost svg (the streaming parser reads <style> after it), vector-effect with disputed viewport transforms.",
         ref="5/C14",
     ),
+    "C10": dict(
+        technique="property-based fault injection: generated documents with malformed attribute values and retargeted use references; never-raises / hang predicate plus a differential check against the document with the offending elements removed",
+        text="C03 documents with a fault plan of 1..3 faults: attribute values of graphics, container or use elements replaced by malformed text from per-type dictionaries (transform, paint, length, points, viewBox, path data, stroke width) and use references retargeted to a missing id, the use itself, an ancestor or a mutual cycle. SVG.parse in the default error mode must return (no exception of any type, no hang), and every shape rendered by the document with the offenders removed (their subtrees and every use instance reaching them) must appear in the faulty parse, in the same order, with identical geometry, fill, stroke and stroke width. Exploration over fault sequences.",
+        note="Nothing is asserted about the offending element or its subtree. Hang detector: 30 s wall clock against a typical 3 ms parse. Mixed-unit translations (KF-TRANSFORM-MIXED-UNITS) are not used as faults.",
+        ref="5/C10",
+    ),
 }
 
 REASON_PENDING = "no check registered yet in this build; the design (DESIGN.md section 5) covers it with property-based testing"
